@@ -186,7 +186,7 @@ def gen_groups(ctx):
         return g
 
     bl = bodies(ctx)
-    short_budget = ctx.scale(28, 60)     # exhaustive <=4-frame splits for bodies up to this length
+    short_budget = ctx.scale(46, 52)     # exhaustive <=4-frame splits for bodies up to this length
     for body, btag in bl:
         n = len(body)
         ex = 4 if n <= short_budget else (3 if n <= ctx.scale(120, 300) else 0)
@@ -246,6 +246,16 @@ def run(ctx):
     if sorted(code_spellings) != sorted(ACCEPTED):
         ctx.note("spellings read from is_json differ from the property's table: code-only %s, property-only %s" % (
             sorted(set(code_spellings) - set(ACCEPTED)), sorted(set(ACCEPTED) - set(code_spellings))))
+    counts = {}
+
+    def fail(kind, key, case, detail):
+        """count every failure, keep at most 40 per (kind, key) plus 40 whose one-frame reference ran a handler"""
+        served = isinstance(detail, dict) and "handlers=-" not in detail.get("same_body_in_one_frame", "handlers=-")
+        k = (kind, key, served)
+        counts[k] = counts.get(k, 0) + 1
+        if counts[k] <= 40:
+            ctx.fail(kind, key, case() if callable(case) else case, detail)
+
     def run_both(cases):
         lines = [line_of(c) for c in cases]
         return vlib.run_lines([impl], lines, min_shard=400), vlib.run_lines([model], lines, min_shard=400)
@@ -256,13 +266,13 @@ def run(ctx):
         r = parse_impl(a)
         new, _, old = b.partition(" | ")
         if r is None or a.startswith(("PANIC", "CRASH", "?")):
-            ctx.fail("oracle", "httpgate-crash", describe(c), a)
+            fail("oracle", "httpgate-crash", describe(c), a)
             ctx.record(describe(c), a, nontrivial=False, validated=False)
             return None
         mine = r["status"] + " " + r["rb"]
         if mine != new:
             unrepaired = (mine == old and first_frame_sniff_class(c))
-            ctx.fail("diff", "first-frame-sniff" if unrepaired else "httpgate-model-differs", describe(c),
+            fail("diff", "first-frame-sniff" if unrepaired else "httpgate-model-differs", describe(c),
                      {"impl": mine, "model": new, "model_of_unrepaired_read_body": old})
         passed_gate = r["status"] not in ("405", "415")
         ctx.count("status-" + r["status"])
@@ -270,14 +280,14 @@ def run(ctx):
         # ---- direct oracle: the gate
         if c["method"] != b"POST":
             if r["status"] != "405":
-                ctx.fail("oracle", "gate-method", describe(c), "method %r answered %s, the property demands 405" % (c["method"], r["status"]))
+                fail("oracle", "gate-method", describe(c), "method %r answered %s, the property demands 405" % (c["method"], r["status"]))
         elif not ct_accepted(c["cts"]):
             if r["status"] != "415":
-                ctx.fail("oracle", "gate-content-type", describe(c), "content type %r answered %s, the property demands 415" % (c["cts"], r["status"]))
+                fail("oracle", "gate-content-type", describe(c), "content type %r answered %s, the property demands 415" % (c["cts"], r["status"]))
         elif not passed_gate:
-            ctx.fail("oracle", "gate-rejects-json-post", describe(c), "a POST with an accepted content type was answered " + r["status"])
+            fail("oracle", "gate-rejects-json-post", describe(c), "a POST with an accepted content type was answered " + r["status"])
         if not (c["method"] == b"POST" and ct_accepted(c["cts"])) and r["log"] != "-":
-            ctx.fail("oracle", "handler-ran-behind-gate", describe(c), "handler log " + r["log"])
+            fail("oracle", "handler-ran-behind-gate", describe(c), "handler log " + r["log"])
         return r
 
     def check_group(g, gi, gm):
@@ -309,7 +319,7 @@ def run(ctx):
                     key = "framing-or-headers-change-answer"
                 d = describe(c)
                 d["reference_line"] = line_of(ref_c)
-                ctx.fail("oracle", key, d,
+                fail("oracle", key, d,
                          {"same_body_in_one_frame": "%s body=%s handlers=%s" % (ref["status"], bytes.fromhex(ref["body"].replace("-", "")).decode("latin1")[:120], ref["log"]),
                           "this_request": "%s body=%s handlers=%s" % (r["status"], bytes.fromhex(r["body"].replace("-", "")).decode("latin1")[:120], r["log"])})
 
@@ -339,10 +349,10 @@ def run(ctx):
     ctx.extra["spellings_in_code"] = [s.decode("latin1") for s in code_spellings]
     # keep the replay small: one failure per key is enough for the decision, the counts go to the notes
     byk = {}
-    for f in ctx.failures:
-        byk[f["key"]] = byk.get(f["key"], 0) + 1
+    for (kind, key, _), n in counts.items():
+        byk[key] = byk.get(key, 0) + n
     if byk:
-        ctx.note("failures by key: %s" % byk)
+        ctx.note("failures by key (model differences and oracle failures together): %s" % byk)
     keep, seen = [], {}
     def weight(f):
         c = f["case"]
